@@ -150,6 +150,20 @@ theorem continue_refines (d : Deque) (m : Mem) (op : Op) (ops : List Op) (hi : d
   rw [b2, b1]
   exact ⟨by rw [r1], r2, r3⟩
 
+/-- **finding (only when the same deque is passed as both sides of a zip iterator)**: `zip_iter_add` tests
+"full?" before inserting and ignores the statuses of its two `add_at` calls; with `d1 == d2` and one free
+slot the second `add_at` has to grow by itself, and if that is refused the call still reports `CC_OK` with
+one of the two elements inserted — a swallowed refusal, not atomic.  Witness:
+`corpus/deque/defect_zip_alias_add_swallows_refusal.ops`; the generators keep refusals away from that call. -/
+theorem zip_alias_add_swallows_refusal :
+    (Deque.mk 3 4 0 3 [11, 12, 13, 0] .conf).Inv ∧
+    (Deque.zipAddSelf { index := 2 } (Deque.mk 3 4 0 3 [11, 12, 13, 0] .conf) 7 8 { sched := [true], live := 2 }).1 = .ok ∧
+    (Deque.zipAddSelf { index := 2 } (Deque.mk 3 4 0 3 [11, 12, 13, 0] .conf) 7 8 { sched := [true], live := 2 }).2.2.1.abs
+      = [11, 12, 7, 13] ∧
+    (Deque.zipAddSelf { index := 2 } (Deque.mk 3 4 0 3 [11, 12, 13, 0] .conf) 7 8 { sched := [true], live := 2 }).2.2.2.nrefused = 1 ∧
+    (Spec.DequeSpec.zipAddSelf [11, 12, 13] { pos := 2 } 7 8).2.1 = [11, 12, 8, 7, 13] :=
+  Deque.zipAddSelf_swallows_refusal
+
 /-- non-vacuity: an exactly full, wrapped deque; the first growth is refused (blocked, unchanged), the
 second succeeds -/
 example : blocked (Deque.mk 2 2 1 1 [12, 11] .conf) { sched := [true], live := 2 } (.addLast 5) = true ∧
